@@ -114,6 +114,19 @@ func (e *Env) call(x *ECall) Val {
 			e.fail("proj: the second argument is not a call with that many results")
 		}
 		return t.Tuple[kv.Big.Int64()]
+	case "entry":
+		// entry(p): the value parameter p had when the function was entered (in loop invariants and site clauses a
+		// parameter name denotes its current value)
+		id, ok := x.Args[0].(*EIdent)
+		if !ok || e.f == nil {
+			e.fail("entry(...) expects a parameter name")
+		}
+		for i, p := range e.f.fn.Params {
+			if p.Name() == id.Name && i < len(e.f.args) {
+				return e.f.args[i]
+			}
+		}
+		e.fail("entry(%s): no such parameter", id.Name)
 	case "sameArray":
 		// two slices are views of the same backing array (they may alias)
 		a, b := arg(0), arg(1)
